@@ -109,6 +109,110 @@ def _fn_digest(fn):
     return hashlib.sha1(ast.unparse(clone).encode()).hexdigest()[:16]
 
 
+READ_SITES = [("memory_info", "statm"), ("_read_smaps_file", "smaps"), ("_parse_smaps_rollup", "smaps_rollup")]
+
+
+def _path_root(expr, fname):
+    """root expression of a path expression naming `<root>/<pid>/<fname>`, or None when `expr` is no such expression.
+    Recognised: f"{ROOT}/{self.pid}/fname", os.path.join(ROOT, …, "fname"), "%s/%s/fname" % (ROOT, …),
+    "{}/{}/fname".format(ROOT, …), ROOT + "/" + … + "/fname"."""
+    if isinstance(expr, ast.JoinedStr):
+        text = "".join(v.value if isinstance(v, ast.Constant) else "\0" for v in expr.values)
+        if not text.endswith("/" + fname):
+            return None
+        first = expr.values[0]
+        if isinstance(first, ast.FormattedValue) and first.conversion == -1 and first.format_spec is None:
+            return ast.unparse(first.value)
+        return "<literal prefix: %s>" % ast.unparse(expr)
+    if isinstance(expr, ast.Call) and dotted(expr.func) in ("os.path.join", "join", "posixpath.join") and expr.args \
+            and const_or_none(expr.args[-1]) in (fname, "/" + fname):
+        return ast.unparse(expr.args[0])
+    if isinstance(expr, ast.BinOp) and isinstance(expr.op, ast.Mod) and isinstance(expr.left, ast.Constant) \
+            and isinstance(expr.left.value, str) and expr.left.value.endswith("/" + fname):
+        args = expr.right.elts if isinstance(expr.right, ast.Tuple) else [expr.right]
+        if expr.left.value.startswith("%s") and args:
+            return ast.unparse(args[0])
+        return "<literal prefix: %s>" % ast.unparse(expr)
+    if isinstance(expr, ast.Call) and isinstance(expr.func, ast.Attribute) and expr.func.attr == "format" \
+            and isinstance(expr.func.value, ast.Constant) and isinstance(expr.func.value.value, str) \
+            and expr.func.value.value.endswith("/" + fname):
+        if expr.func.value.value.startswith("{") and expr.args:
+            return ast.unparse(expr.args[0])
+        return "<literal prefix: %s>" % ast.unparse(expr)
+    if isinstance(expr, ast.BinOp) and isinstance(expr.op, ast.Add):
+        right = expr.right
+        if isinstance(right, ast.Constant) and isinstance(right.value, str) and right.value.endswith("/" + fname):
+            left = expr.left
+            while isinstance(left, ast.BinOp) and isinstance(left.op, ast.Add):
+                left = left.left
+            return ast.unparse(left)
+    return None
+
+
+def const_or_none(e):
+    return e.value if isinstance(e, ast.Constant) else None
+
+
+def _read_roots(tree):
+    """for each read site (method, file): the ROOT expression of the path it opens — `self._procfs_path` is the root the object
+    captured in __init__, `get_procfs_path()` the module global at the time of the call. TOTAL: anything unrecognised is
+    printed as `<…>` (the obligation `bcfg_good` then fails with that text) — the fact is never skipped."""
+    out = []
+    for meth, fname in READ_SITES:
+        key = "%s:%s" % (meth, fname)
+        try:
+            fn = _proc_method(tree, meth)
+        except NotRecognised:
+            out.append((key, "<method not found>"))
+            continue
+        roots = []
+        for n in ast.walk(fn):
+            r = _path_root(n, fname) if isinstance(n, ast.expr) else None
+            if r is not None:
+                roots.append(r)
+        roots = sorted(set(roots))
+        if len(roots) == 1:
+            root = roots[0]
+            # a local alias (`root = get_procfs_path()`) is followed one step
+            alias = [a for a in ast.walk(fn) if isinstance(a, ast.Assign) and len(a.targets) == 1
+                     and isinstance(a.targets[0], ast.Name) and a.targets[0].id == root]
+            out.append((key, ast.unparse(alias[0].value) if len(alias) == 1 else root))
+        else:
+            out.append((key, "<%d path expressions for %s: %s>" % (len(roots), fname, ", ".join(roots))))
+    return out
+
+
+def _procfs_binders(tree):
+    """every assignment to `<obj>._procfs_path` inside class _pslinux.Process (and class-level definitions of that name):
+    (method, right-hand side). The object must capture the root once, in __init__, and never again."""
+    cls = extract.find_class(tree, "Process")
+    out = []
+    for st in cls.body:
+        if isinstance(st, (ast.Assign, ast.AnnAssign)):
+            tg = st.targets if isinstance(st, ast.Assign) else [st.target]
+            if any(dotted(t) == "_procfs_path" for t in tg):
+                out.append(("<class body>", ast.unparse(st.value) if st.value is not None else "<annotation>"))
+    for fn in ast.walk(cls):
+        if not isinstance(fn, ast.FunctionDef):
+            continue
+        if fn.name == "_procfs_path":
+            out.append(("<method/property _procfs_path>", "<def>"))
+        for n in ast.walk(fn):
+            tg = []
+            if isinstance(n, ast.Assign):
+                tg = n.targets
+            elif isinstance(n, (ast.AugAssign, ast.AnnAssign)):
+                tg = [n.target]
+            for t in tg:
+                for e in ([t] if not isinstance(t, ast.Tuple) else t.elts):
+                    if isinstance(e, ast.Attribute) and e.attr == "_procfs_path":
+                        out.append((fn.name, ast.unparse(n.value) if getattr(n, "value", None) is not None else "<none>"))
+            if isinstance(n, ast.Call) and dotted(n.func) in ("setattr", "object.__setattr__") and len(n.args) >= 2 \
+                    and const_or_none(n.args[1]) == "_procfs_path":
+                out.append((fn.name, "<setattr>"))
+    return out
+
+
 ANCHORED_LX = ["memory_info", "_parse_smaps_rollup", "_parse_smaps", "_read_smaps_file", "memory_full_info", "memory_maps"]
 ANCHORED_FRONT = ["memory_maps", "memory_percent"]
 
@@ -627,6 +731,12 @@ def facts(snap, F):
     F.try_add("anchoredBodies", "List (String × String)",
               lambda: L(_digests(lx(), fe(), co()), lambda e: "(%s, %s)" % (S(e[0]), S(e[1]))),
               "sha1[:16] of the normalised text of every function the model transcribes (an edit anywhere in one of them changes its digest)")
+    F.try_add("readRoots", "List (String × String)",
+              lambda: L(_read_roots(lx()), lambda e: "(%s, %s)" % (S(e[0]), S(e[1]))),
+              "for each read site (method:file) of the memory methods, the ROOT expression of the path it opens (`self._procfs_path` = the root the object captured; `get_procfs_path()` = PROCFS_PATH at the time of the call)")
+    F.try_add("procfsBinders", "List (String × String)",
+              lambda: L(_procfs_binders(lx()), lambda e: "(%s, %s)" % (S(e[0]), S(e[1]))),
+              "every assignment to `._procfs_path` inside class _pslinux.Process: (method, right-hand side)")
     F.try_add("groupPathIdx", "Nat", lambda: N(grp()["path_idx"]), "`path = tupl[2]` in the grouping loop")
     F.try_add("groupNumsFrom", "Nat", lambda: N(grp()["nums_from"]), "`nums = tupl[3:]` in the grouping loop")
     F.try_add("pctValidation", "String", lambda: S(_pct_validation(fe())),
